@@ -601,11 +601,21 @@ def w_explain(failure, tier):
             {"type": "function_score", "query": {"type": "term", "field": "body", "value": "engine"}, "functions": [{"type": "weight", "weight": 4.0}]},
             {"type": "term", "field": "body", "value": "rust"}]}]},
     ]
+    queries.append({"type": "match_all"})
+    skip = set((failure or {}).get('skip_cases') or [])
+    sorts = [(None, 'score-sort'), ([{"field": "_score", "order": "desc"}, {"field": "rating", "order": "asc"}], 'score-sort'),
+             ([{"field": "rating", "order": "desc"}], 'explain-field-only-sort')]
     reqs = []
     for q in queries:
         for ex in ("bm25", "wand"):
-            for explain in (False, True):
-                reqs.append(dict(REQ_BASE, query=q, limit=50, execution=ex, explain=explain))
+            for (srt, tag) in sorts:
+                if tag in skip:
+                    continue
+                for explain in (False, True):
+                    r = dict(REQ_BASE, query=q, limit=50, execution=ex, explain=explain)
+                    if srt:
+                        r['sort'] = srt
+                    reqs.append(r)
     out, err = drive_search({"schema": None, "schema_add": add, "batches": [docs[:6], docs[6:]], "requests": reqs})
     if out is None:
         return dict(found=False, note='search driver failed: %s' % err)
@@ -621,7 +631,7 @@ def w_explain(failure, tier):
         n += 1
         if ha != hb:
             return dict(found=True, cmd='%s search <<< hex(json)' % BIN,
-                        input='12 documents in 2 segments; query %s, execution %s, run with explain false and true' % (_json.dumps(reqs[i]['query']), reqs[i]['execution']),
+                        input='12 documents in 2 segments; query %s, sort %s, execution %s, run with explain false and true' % (_json.dumps(reqs[i]['query']), _json.dumps(reqs[i].get('sort')), reqs[i]['execution']),
                         observed='explain off: %s ; explain on: %s' % (ha[:5], hb[:5]), expected='identical hits, order and scores')
         for h in b['ok']['hits']:
             ex = h.get('explanation')
@@ -764,7 +774,147 @@ def w_history(failure, tier):
     return dict(found=False, note='writer histories: %d histories of add/delete/commit/rollback/restart over 4 ids agree with the dictionary model' % len(cases))
 
 
+# ---------------------------------------------------------------- U19 scripts
+def w_script(failure, tier):
+    """script_score with arbitrary small scripts: Ok or Err, never a panic"""
+    docs = [{"_id": "d%d" % i, "body": "alpha beta", "rating": float(i)} for i in range(3)]
+    add = {"numeric_fields": [{"name": "rating", "i64": False, "fast": True, "stored": True}]}
+    scripts = ["()", "( )", "(())", "()()", "1 +", "_score *", "-", "1 2", ")(", "_score", "-(-_score)", "1/0", "rating * 2", "((1)", "1 + + 2", "--1",
+               "_score * (rating + 1)", "(", ")", "1e308 * 1e308", "0/0", "rating rating", "- -", "+", "* 2"]
+    reqs = [dict(REQ_BASE, query={"type": "script_score", "query": {"type": "term", "field": "body", "value": "alpha"}, "script": sc}) for sc in scripts]
+    out, err = drive_search({"schema": None, "schema_add": add, "batches": [docs], "requests": reqs})
+    if out is None:
+        return dict(found=False, note='search driver failed: %s' % err)
+    for sc, o in zip(scripts, out):
+        if 'panic' in o:
+            return dict(found=True, cmd='%s search <<< hex(json)' % BIN, input='script_score query with script %r over 3 documents' % sc,
+                        observed='PANIC ' + o['panic'][:200], expected='Ok or Err: a search never panics on any script')
+    return dict(found=False, note='scripts: %d small scripts through script_score, none panics' % len(scripts))
+
+
+# ---------------------------------------------------------------- U20 scan / accept: who is counted and returned
+def w_scan(failure, tier):
+    """queries without terms (scan_segment) and with terms (accept closure) over 3 segments with deletions and a root
+    filter: hits, total and a terms aggregation must equal a brute-force reference over the live documents"""
+    docs = []
+    for i in range(18):
+        docs.append({"_id": "d%02d" % i, "body": ("alpha " if i % 2 == 0 else "beta ") + "filler", "rank": i % 5, "tag": "t%d" % (i % 3)})
+    add = {"numeric_fields": [{"name": "rank", "i64": True, "fast": True, "stored": True}],
+           "keyword_fields": [{"name": "tag", "stored": True, "indexed": True, "fast": True}]}
+    batches = [docs[:6], docs[6:12], docs[12:]]
+    deletes = [[], ["d01", "d04"], ["d07", "d13"]]
+    gone = {"d01", "d04", "d07"}     # d13 is deleted in the same batch that adds it: the add wins or the delete wins -- excluded below
+    live = [d for d in docs if d["_id"] not in gone and d["_id"] != "d13"]
+    cases = []
+    for (qname, q, qpred) in (("match_all", {"type": "match_all"}, lambda d: True), ("term alpha", {"type": "term", "field": "body", "value": "alpha"}, lambda d: d["body"].startswith("alpha"))):
+        for (fname, flt, fpred) in (("no filter", None, lambda d: True), ("rank in 1..3", {"I64Range": {"field": "rank", "min": 1, "max": 3}}, lambda d: 1 <= d["rank"] <= 3),
+                                    ("tag = t1", {"KeywordEq": {"field": "tag", "value": "t1"}}, lambda d: d["tag"] == "t1")):
+            for srt in (None, [{"field": "rank", "order": "asc"}]):
+                for explain in (False, True):
+                    if explain and srt:
+                        continue
+                    req = dict(REQ_BASE, query=q, limit=100, execution="wand", explain=explain,
+                               aggs={"tags": {"type": "terms", "field": "tag", "size": 10}})
+                    if flt:
+                        req["filter"] = flt
+                    if srt:
+                        req["sort"] = srt
+                    cases.append((qname, fname, srt, explain, req, [d for d in live if qpred(d) and fpred(d)]))
+    out, err = drive_search({"schema": None, "schema_add": add, "batches": batches, "deletes": deletes, "requests": [c[4] for c in cases]})
+    if out is None:
+        return dict(found=False, note='search driver failed: %s' % err)
+    n = 0
+    for (qname, fname, srt, explain, req, want), o in zip(cases, out):
+        desc = '18 documents in 3 segments (d01 d04 d07 deleted), query %s, filter %s, sort %s, explain %s' % (qname, fname, _json.dumps(srt), explain)
+        if 'ok' not in o:
+            return dict(found=True, cmd='%s search <<< hex(json)' % BIN, input=desc, observed=str(o)[:200], expected='a response')
+        ids = sorted(h['doc_id'] for h in o['ok']['hits'] if h['doc_id'] != 'd13')
+        wid = sorted(d['_id'] for d in want)
+        if ids != wid:
+            return dict(found=True, cmd='%s search <<< hex(json)' % BIN, input=desc, observed='hits %s' % ids, expected='exactly the live documents that satisfy query and filter: %s' % wid)
+        tot = o['ok'].get('total_hits_estimate', 0)
+        extra = sum(1 for h in o['ok']['hits'] if h['doc_id'] == 'd13')
+        if tot != len(wid) + extra:
+            return dict(found=True, cmd='%s search <<< hex(json)' % BIN, input=desc, observed='total_hits_estimate %d' % tot, expected='%d' % (len(wid) + extra))
+        aggs = (o['ok'].get('aggregations') or {}).get('tags')
+        if aggs and 'buckets' in aggs and not extra:
+            got = {b['key']: b['doc_count'] for b in aggs['buckets']}
+            ref = {}
+            for d in want:
+                ref[d['tag']] = ref.get(d['tag'], 0) + 1
+            if got != ref:
+                return dict(found=True, cmd='%s search <<< hex(json)' % BIN, input=desc + ', terms aggregation on tag', observed='buckets %s' % got, expected='%s' % ref)
+        n += 1
+    return dict(found=False, note='scan/accept: %d requests (match_all and term queries x root filters x sorts x explain) return exactly the live matching documents, count them once and aggregate them once' % n)
+
+
+# ---------------------------------------------------------------- U13 / U17 rescoring
+def _f32(x):
+    import struct
+    return struct.unpack('<f', struct.pack('<f', x))[0]
+
+
+def w_rescore(failure, tier):
+    """C19 as stated: the first window_size hits get combine(original, rescore score), hits the rescore query rejects by
+    min_score are dropped, window hits the rescore query does not match keep their score, the window is re-sorted by
+    the new score, the tail keeps scores and order.  The rescore query's own scores / rejections / matches are read
+    from a stand-alone run of that query (not the rescore path)."""
+    docs = []
+    ratings = [5, 1, 7, 2, 9, 4, 2.5, 8, 1.5, 6, 3.5, 10]
+    for i in range(12):
+        docs.append({"_id": "d%02d" % i, "body": "rust " * (1 + i % 4) + "filler " * (i % 5), "rating": float(ratings[i])})
+    add = {"numeric_fields": [{"name": "rating", "i64": False, "fast": True, "stored": True}]}
+    batches = [docs[:6], docs[6:]]
+    rqs = [('function_score(match_all, rating, replace, min_score 3)',
+            {"type": "function_score", "query": {"type": "match_all"}, "functions": [{"type": "field_value_factor", "field": "rating", "factor": 1.0}],
+             "boost_mode": "replace", "min_score": 3.0}, 'drop'),
+           ('term body:filler (matches only some window hits)', {"type": "term", "field": "body", "value": "filler"}, 'keep')]
+    base = dict(REQ_BASE, query="rust", limit=100)
+    combos = [(w, m) for w in (1, 3, 5, 8, 12, 50) for m in ("total", "multiply", "max", "min")]
+    comb = {"total": lambda a, b: _f32(a + b), "multiply": lambda a, b: _f32(a * b), "max": max, "min": min}
+    n = 0
+    for (rname, rq, absent) in rqs:
+        reqs = [base, dict(REQ_BASE, query=rq, limit=100)]
+        for (w, m) in combos:
+            reqs.append(dict(base, rescore={"window_size": w, "query": rq, "score_mode": m}))
+        out, err = drive_search({"schema": None, "schema_add": add, "batches": batches, "requests": reqs})
+        if out is None or 'ok' not in out[0] or 'ok' not in out[1]:
+            return dict(found=False, note='search driver failed: %s' % (err or str(out)[:200]))
+        orig = [(h['doc_id'], h['score']) for h in out[0]['ok']['hits']]
+        rs = {h['doc_id']: h['score'] for h in out[1]['ok']['hits']}
+        for (w, m), o in zip(combos, out[2:]):
+            desc = '12 documents in 2 segments, query "rust", rescore window_size %d score_mode %s, rescore query %s' % (w, m, rname)
+            if 'ok' not in o:
+                return dict(found=True, cmd='%s search <<< hex(json)' % BIN, input=desc, observed=str(o)[:200], expected='a response')
+            got = [(h['doc_id'], h['score']) for h in o['ok']['hits']]
+            win = []
+            for (d, sc) in orig[:w]:
+                if d in rs:
+                    win.append((d, comb[m](sc, rs[d])))
+                elif absent == 'keep':
+                    win.append((d, sc))
+            if len(set(sc for (_, sc) in win)) != len(win):
+                continue    # ties inside the window: order depends on the tie-break, not compared
+            win.sort(key=lambda x: -x[1])
+            want = win + orig[w:]
+            if [g[0] for g in got] != [x[0] for x in want] or any(abs(g[1] - x[1]) > 1e-5 * max(1.0, abs(x[1])) for g, x in zip(got, want)):
+                return dict(found=True, cmd='%s search <<< hex(json)' % BIN, input=desc,
+                            observed='hits %s' % [(d, round(sc, 4)) for (d, sc) in got],
+                            expected='%s (window combined and re-sorted, min_score rejections dropped, non-matching window hits and the tail untouched)' % [(d, round(sc, 4)) for (d, sc) in want])
+            n += 1
+    return dict(found=False, note='rescore: %d (rescore query, window, mode) combinations agree with the documented semantics' % n)
+
+
 GENERATORS = {
+    ('U17', 'remove_rejected'): w_rescore,
+    ('U17', 'window_resort'): w_rescore,
+    ('U22', 'window_group'): w_rescore,
+    ('U22', 'rescore_segment_docs'): w_rescore,
+    ('U20', 'scan_segment_body'): w_scan,
+    ('U20', 'accept_body'): w_scan,
+    ('U21', 'scan_score_choice'): w_explain,
+    ('U21', 'score_mode_choice'): w_explain,
+    ('U19', 'evaluate'): w_script,
     ('U3', 'commit_fold'): w_history,
     ('U3', 'load_segment_ids'): w_history,
     ('U15', 'new_replay'): w_history,
@@ -779,7 +929,7 @@ GENERATORS = {
     ('U13', 'function_values_and_base'): w_explain,
     ('U13', 'explain_fill'): w_explain,
     ('U13', 'has_custom_scoring'): w_explain,
-    ('U13', 'rescore_update'): w_explain,
+    ('U13', 'rescore_update'): w_rescore,
     ('U14', 'fast_path_guard'): w_pagination,
     ('U7', 'page_cut'): w_pagination,
     ('U7', 'skip_search_segment'): w_pagination,
@@ -815,4 +965,11 @@ def search(prop, failure, unit_res, tier):
         return None
     if not build_driver():
         return dict(found=False, note='native driver failed to build from /repo: ' + _built['log'][-600:])
-    return g(failure, tier)
+    # inputs that an open known finding already names are not offered as the witness of a DIFFERENT violation
+    from . import findings
+    own = any(failure.get('obligation') in (e.get('sites') or {e.get('obligation'): None})
+              for e in findings.load() if e.get('status') == 'open' and e.get('property') == prop)
+    f2 = dict(failure)
+    if not own:
+        f2['skip_cases'] = findings.open_cases(prop)
+    return g(f2, tier)
